@@ -398,7 +398,8 @@ _probe_n = [0]
 
 
 def inspect_module(path, srcfile):
-    """('absent',) | ('complete', version, magic) | ('broken', why) - complete = compiles, has _magic_number, renders"""
+    """('absent',) | ('complete', version, magic, generated-from-this-file?) | ('broken', why)
+    complete = compiles, has _magic_number, renders"""
     if not os.path.exists(path):
         return ("absent",)
     try:
@@ -415,7 +416,7 @@ def inspect_module(path, srcfile):
         v = version_of(out)
         if v is None:
             return ("broken", "renders %r" % (out[:40],))
-        return ("complete", v, magic)
+        return ("complete", v, magic, getattr(mod, "_template_filename", None) == srcfile)
     except BaseException as e:                 # noqa: a truncated module can fail in any way
         return ("broken", type(e).__name__)
 
@@ -452,6 +453,7 @@ class Sandbox:
     def __init__(self, base, name="t.html", moddir="mods"):
         self.base = base
         self.src = os.path.join(base, "src", name)
+        self.other = os.path.join(base, "src", "other_" + name)
         self.moddir = os.path.join(base, moddir)
         self.scratch = os.path.join(base, "scratch")
         os.makedirs(os.path.dirname(self.src), exist_ok=True)
@@ -479,8 +481,15 @@ class Sandbox:
         if os.path.exists(self.mp):
             os.unlink(self.mp)
 
-    def replace_mod(self, magic, mtime):
-        data = make_module_text(self.src, self.scratch, magic)
+    def replace_mod(self, magic, mtime, other=False):
+        """install a complete module at the module path: of another generator version (magic) and / or generated
+        from ANOTHER template file (which renders version 1000 + current)"""
+        src = self.src
+        if other:
+            with open(self.other, "w") as f:
+                f.write(src_text(1000 + self.ver))
+            src = self.other
+        data = make_module_text(src, self.scratch, magic)
         os.makedirs(os.path.dirname(self.mp), exist_ok=True)
         with open(self.mp, "wb") as f:
             f.write(data)
@@ -504,7 +513,9 @@ def gen_history(rng, quick):
         if name == "touch":
             ops.append({"op": "touch", "rel": rng.choice(["newer", "older", "equal", "equal", "newer"])})
         elif name == "replace":
-            ops.append({"op": "replace", "magic": rng.choice([9, 11, 7, 0]), "rel": rng.choice(["fresh", "fresh", "stale", "equal"])})
+            other = rng.random() < 0.35
+            ops.append({"op": "replace", "magic": rng.choice([10, 10, 9]) if other else rng.choice([9, 11, 7, 0]),
+                        "rel": rng.choice(["fresh", "fresh", "stale", "equal"]), "other": other})
         elif name == "fault":
             # make the faulty write group actually happen: stale / missing module (group 1) or other magic (group 2)
             pre = rng.choice(["newer", "delete", "magic", "magic", "any"])
@@ -514,7 +525,9 @@ def gen_history(rng, quick):
             elif pre == "delete":
                 ops.append({"op": "delete"})
             elif pre == "magic":
-                ops.append({"op": "replace", "magic": rng.choice([9, 11]), "rel": rng.choice(["fresh", "equal"])})
+                other = rng.random() < 0.4
+                ops.append({"op": "replace", "magic": 10 if other else rng.choice([9, 11]), "rel": rng.choice(["fresh", "equal"]),
+                            "other": other})
                 g = 2
             else:
                 g = rng.choice([1, 2])
@@ -635,8 +648,9 @@ def run_history(ctx, hist, base, record_oracle=True):
         elif kind == "replace":
             sm = sb.src_mtime()
             m = {"fresh": max(sm, sb.clock), "stale": max(1, sm - 2), "equal": sm}[op["rel"]]
-            sb.replace_mod(op["magic"], m)
-            toks.append("R%d.%d.%d.1" % (sb.ver, op["magic"], m))
+            other = bool(op.get("other"))
+            sb.replace_mod(op["magic"], m, other)
+            toks.append("R%d.%d.%d.1.%d" % (1000 + sb.ver if other else sb.ver, op["magic"], m, 1 if other else 0))
         elif kind == "construct":
             toks.append("K%d" % sb.clock)
             fault = op.get("fault")
@@ -683,11 +697,11 @@ def run_history(ctx, hist, base, record_oracle=True):
                 # the property text, read directly (no model): due = missing, older than the source, other generator version
                 import mako.codegen as CG
                 mm_before = res["before_mtime"] = before_mtime
-                due = before[0] == "absent" or before_mtime < sb.src_mtime() or before[2] != CG.MAGIC_NUMBER
+                due = before[0] == "absent" or before_mtime < sb.src_mtime() or before[2] != CG.MAGIC_NUMBER or not before[3]
                 wrote = (len(hook_calls) if hook else rec.groups_begun) > 0
                 what = "module_writer called" if hook else "module written"
                 if wrote and not due:
-                    complaints.append({"site": "rewrite-when-not-due", "detail": "%s although the module (mtime %r, magic %r) is not older than the source (mtime %r)"
+                    complaints.append({"site": "rewrite-when-not-due", "detail": "%s although the module (mtime %r, magic %r, generated from this file) is not older than the source (mtime %r)"
                                        % (what, before_mtime, before[2], sb.src_mtime())})
                 if due and not wrote:
                     complaints.append({"site": "no-rewrite-when-due", "detail": "not %s although due: before=%r mtime %r, source mtime %r"
@@ -729,7 +743,7 @@ def parse_record(r):
     res, writes, acts, calls, modf, temps = r.split("|")
     d = {"writes": int(writes), "acts": canon_model_acts(acts)}
     if res.startswith("served:"):
-        src, magic, comp, stamp = res[7:].split(":")
+        src, magic, comp, stamp, fil = res[7:].split(":")
         d.update(res="served", ver=int(src), magic=int(magic))
     else:
         d["res"] = "failed" if res == "failed" else res
@@ -739,8 +753,8 @@ def parse_record(r):
         d["mtime"] = None
     else:
         body, mt = modf.split("@")
-        src, magic, comp, stamp = body.split(":")
-        d["after"] = ("complete", int(src), int(magic)) if comp == "1" else ("broken",)
+        src, magic, comp, stamp, fil = body.split(":")
+        d["after"] = ("complete", int(src), int(magic), fil == "0") if comp == "1" else ("broken",)
         d["mtime"] = int(mt)
     d["temps"] = sorted([] if temps == "-" else [t.split("=")[1].split(":")[2] == "1" for t in temps.split(",")])
     return d
@@ -784,7 +798,7 @@ def hist_tokens(hist):
         if t == "touch":
             t += ":" + o["rel"]
         elif t == "replace":
-            t += ":%d:%s" % (o["magic"], o["rel"])
+            t += ":%d:%s%s" % (o["magic"], o["rel"], ":otherfile" if o.get("other") else "")
         elif t == "construct":
             if o.get("fault"):
                 t += ":f%d.%d%s" % tuple(o["fault"])
@@ -858,6 +872,10 @@ def corr_histories(ctx, root):
         [{"op": "touch", "rel": "older"}, {"op": "construct"}, {"op": "replace", "magic": 9, "rel": "fresh"}, {"op": "construct"},
          {"op": "replace", "magic": 11, "rel": "stale"}, {"op": "construct"}, {"op": "delete"}, {"op": "construct"}],
         [{"op": "touch", "rel": "older"}, {"op": "construct", "fault": [1, 1, "s"]}, {"op": "construct"}],
+        [{"op": "touch", "rel": "older"}, {"op": "construct"}, {"op": "replace", "magic": 10, "rel": "fresh", "other": True},
+         {"op": "construct"}, {"op": "construct"}, {"op": "replace", "magic": 10, "rel": "equal", "other": True},
+         {"op": "construct", "hook": "install"}, {"op": "replace", "magic": 9, "rel": "fresh", "other": True},
+         {"op": "construct", "fault": [2, 1, "s"]}, {"op": "construct"}],
         [{"op": "touch", "rel": "older"}, {"op": "construct"}, {"op": "replace", "magic": 9, "rel": "fresh"},
          {"op": "touch", "rel": "older"}, {"op": "construct"}, {"op": "construct"}],
         [{"op": "touch", "rel": "older"}, {"op": "replace", "magic": 11, "rel": "equal"}, {"op": "touch", "rel": "equal"},
@@ -1080,7 +1098,7 @@ def finish(p, timeout=120):
 
 # --------------------------------------------------------------------------- (b) fault enumeration
 
-START_STATES = ["none", "stale", "magic", "stale-nodir"]
+START_STATES = ["none", "stale", "magic", "stale-nodir", "otherfile"]
 
 
 def prepare_state(base, state):
@@ -1101,8 +1119,11 @@ def prepare_state(base, state):
     elif state == "magic":
         sb.replace_mod(9, 1003)                 # fresh mtime, other generator version
         old = 1
+    elif state == "otherfile":
+        sb.replace_mod(10, 1003, other=True)    # fresh mtime, right generator version, but generated from another file
+        old = 1001
     return {"src": sb.src, "moddir": sb.moddir, "cur": sb.ver, "old": old, "state": state, "clock": 1010,
-            "group": 2 if state == "magic" else 1}
+            "group": 2 if state in ("magic", "otherfile") else 1}
 
 
 def fault_points(quick):
@@ -1153,7 +1174,9 @@ def model_post_request(sc, fault):
     elif sc["state"] == "stale-nodir":
         toks += ["S1005"]
     elif sc["state"] == "magic":
-        toks += ["R1.9.1003.1"]
+        toks += ["R1.9.1003.1.0"]
+    elif sc["state"] == "otherfile":
+        toks += ["R1001.10.1003.1.1"]
     g, j, kind = fault
     fates = ["-", "-"]
     crash = "n"
@@ -1243,7 +1266,7 @@ def oracle_concurrent(ctx, root):
     ns = [2, 4, 8] if ctx.quick else [2, 3, 4, 5, 6, 7, 8]
     reps = 1 if ctx.quick else 6
     for n in ns:
-        for state in ("none", "stale", "magic", "future-src"):
+        for state in ("none", "stale", "magic", "otherfile", "future-src"):
             for _ in range(reps):
                 configs.append((n, state))
     reported = set()
@@ -1379,3 +1402,6 @@ def replay(ctx, data):
     finally:
         sys.dont_write_bytecode = old_dwb
         shutil.rmtree(root, ignore_errors=True)
+
+
+DRIVER_OPS = ["modfile"]   # per-area driver executable(s) this check talks to (built before any worker is forked)
